@@ -305,11 +305,27 @@ theorem round_start_facts {V} {F : Key → Nat} (ops : ValOps V) (r : Runner V) 
   rw [← e2] at hnv
   have hjust := getReady_justified ops hd _ v1 v2 rank hrank n v hnv
   obtain ⟨c, hc, ht, hgv⟩ := getReady_src ops _ n v hnv
-  obtain ⟨t0, _, t1, t2⟩ := triggered_unpack c ht
+  obtain ⟨t0, tne, t1, t2⟩ := triggered_unpack c ht
   have t1w : ∀ p, (p, Dep.waiting) ∉ c.ctrl := fun p hm => by have := t1 p _ hm; simp [pendC] at this
   have dkeys := chan_data_keys r hd _ v2 n c hc
   have ckeys := chan_ctrl_keys r hd _ v2 v1.nd n c hc
-  refine ⟨hjust.2.1, fun p hp => ?_, fun p hp => ?_, c.values, v1.vnd n c hc, fun p w => ⟨fun hw => v1.val n c hc p w hw, fun ⟨hm, hr'⟩ => ?_⟩, ?_⟩
+  have hne : lookupList n r.ctrlPreds ≠ [] := by
+    intro hnil
+    have hcnil : c.ctrl = [] := by
+      cases hcc : c.ctrl with
+      | nil => rfl
+      | cons a b =>
+        have := (ckeys a.1).mpr (by rw [hcc]; simp [akeys])
+        rw [hnil] at this; simp at this
+    have hshm := shapes_mem _ n c hc
+    rw [v2] at hshm
+    have hd0 := hHC n _ _ hshm (by rw [hcnil]; rfl)
+    have hdnil : c.data = [] := by
+      cases hdd : c.data with
+      | nil => rfl
+      | cons a b => rw [hdd] at hd0; simp [akeys] at hd0
+    exact tne ⟨hcnil, hdnil⟩
+  refine ⟨hjust.2.1, fun p hp => ?_, fun p hp => ?_, hne, c.values, v1.vnd n c hc, fun p w => ⟨fun hw => v1.val n c hc p w hw, fun ⟨hm, hr'⟩ => ?_⟩, ?_⟩
   · obtain ⟨b, hb⟩ := exists_of_mem_akeys _ _ ((dkeys p).mp hp)
     have hbt : b = true := by
       have := t2 p b hb
